@@ -42,6 +42,12 @@ type emitter struct {
 	atoms   []Atom
 	pendWS  bool
 	pendReq bool
+	// carry: the last atom came from an inline item that is directly followed
+	// by source whitespace, and only control-flow boundaries have been crossed
+	// since. If the next atom is the first atom of another inline item the
+	// separation is required (templ passes the "next node" through if / for /
+	// switch bodies for exactly this purpose).
+	carry bool
 	left    string // blame: what produced the previous atom
 	cur     string // blame: node currently rendering
 	bounds  []string
@@ -106,7 +112,7 @@ func (p *Program) Interpret(a *Args) Result {
 	env := &Env{A: a, Vars: map[string]string{}, Ints: map[string]int{}, Trace: &trace}
 	e := &emitter{left: "start", cur: "start"}
 	in := &interp{e: e}
-	in.list(p.Comps[0].Body, env, "template")
+	in.list(p.Comps[0].Body, env, "template", p.Comps[0].End, false)
 	if p.Comps[0].End != SepNone {
 		e.ws("template-end")
 	}
@@ -120,25 +126,42 @@ type interp struct {
 	slot []func()
 }
 
-func (in *interp) list(ns []*Node, env *Env, parent string) {
+// list renders a sibling list. endSep is the separator between the last node
+// and the container's closing; flow reports whether the container is a
+// control-flow body (the required-separation state survives its boundaries)
+// or an element / template / call block (it does not).
+func (in *interp) list(ns []*Node, env *Env, parent string, endSep Sep, flow bool) {
 	e := in.e
-	var prev *Node
-	prevProduced := false
-	prevLast := -1
-	for _, n := range ns {
+	if !flow {
+		e.carry = false
+	}
+	for i, n := range ns {
 		if n.Before != SepNone {
 			e.ws(parent + ":" + n.Before.String())
 		}
-		before := len(e.atoms)
-		if prev != nil && prevProduced && prev.InlineItem() && n.InlineItem() && n.Before != SepNone && prevLast == len(e.atoms)-1 {
-			e.pendReq = true
+		following := endSep
+		if i+1 < len(ns) {
+			following = ns[i+1].Before
 		}
-		in.node(n, env, parent)
-		produced := len(e.atoms) > before
-		if !produced {
+		switch {
+		case n.InlineItem():
+			before := len(e.atoms)
+			e.pendReq = e.carry
+			e.carry = false
+			in.node(n, env, parent)
 			e.pendReq = false
+			produced := len(e.atoms) > before
+			e.carry = produced && following != SepNone
+		case n.Kind == KIf || n.Kind == KFor || n.Kind == KSwitch:
+			in.node(n, env, parent) // carry passes through
+		default:
+			e.carry = false
+			in.node(n, env, parent)
+			e.carry = false
 		}
-		prev, prevProduced, prevLast = n, produced, len(e.atoms)-1
+	}
+	if !flow {
+		e.carry = false
 	}
 }
 
@@ -187,6 +210,26 @@ func (in *interp) attrs(as []*Attr, env *Env, out *[][2]string) {
 					if v {
 						*out = append(*out, [2]string{k, ""})
 					}
+				case map[string]any:
+					b, _ := v["b"].(bool)
+					b2, _ := v["b2"].(bool)
+					sv, _ := v["s"].(string)
+					switch v["k"] {
+					case "pbool", "fbool":
+						if b {
+							*out = append(*out, [2]string{k, ""})
+						}
+					case "pstring":
+						*out = append(*out, [2]string{k, sv})
+					case "kvsb":
+						if b {
+							*out = append(*out, [2]string{k, sv})
+						}
+					case "kvbb":
+						if b && b2 {
+							*out = append(*out, [2]string{k, ""})
+						}
+					}
 				}
 			}
 		case AClass:
@@ -225,7 +268,7 @@ func (in *interp) node(n *Node, env *Env, parent string) {
 		if isVoid(n.Name) {
 			return
 		}
-		in.list(n.Kids, env, "element")
+		in.list(n.Kids, env, "element", n.End, false)
 		if n.End != SepNone {
 			e.ws("element-end:" + n.End.String())
 		}
@@ -248,14 +291,19 @@ func (in *interp) node(n *Node, env *Env, parent string) {
 			}
 		}
 		if taken {
-			in.list(body, env.child(), "if-body")
+			in.list(body, env.child(), "if-body", end, true)
 			if end != SepNone {
 				e.ws("if-body-end")
 			}
 		}
 	case KFor:
+		iter := 0
 		n.ForIter(env, func(c *Env) {
-			in.list(n.Kids, c, "for-body")
+			if iter > 0 {
+				e.carry = false // iteration to iteration: separation depends on what follows the loop
+			}
+			iter++
+			in.list(n.Kids, c, "for-body", n.End, true)
 			if n.End != SepNone {
 				e.ws("for-body-end")
 			}
@@ -283,7 +331,7 @@ func (in *interp) node(n *Node, env *Env, parent string) {
 			hit = def
 		}
 		if hit != nil {
-			in.list(hit.Body, env.child(), "case-body")
+			in.list(hit.Body, env.child(), "case-body", SepNL, true)
 			e.ws("case-body-end")
 		}
 	case KCall:
@@ -296,7 +344,7 @@ func (in *interp) node(n *Node, env *Env, parent string) {
 				// the block renders in the caller's scope, with the caller's own slot
 				saved := in.slot
 				in.slot = callerSlot
-				in.list(n.Kids, env.child(), "call-block")
+				in.list(n.Kids, env.child(), "call-block", n.End, false)
 				if n.End != SepNone {
 					e.ws("call-block-end")
 				}
@@ -304,7 +352,7 @@ func (in *interp) node(n *Node, env *Env, parent string) {
 			}
 		}
 		in.slot = append(in.slot, block)
-		in.list(n.Callee.Body, cenv, "template")
+		in.list(n.Callee.Body, cenv, "template", n.Callee.End, false)
 		if n.Callee.End != SepNone {
 			e.ws("template-end")
 		}
